@@ -7,10 +7,13 @@ fn meta_for(check: &str, tier: Tier) -> Option<CheckMeta> {
         "C03" => qv::c01::meta("C03", tier),
         "C04" => qv::c04::meta(tier),
         "C05" => qv::c05::meta(tier),
+        "C06" => qv::c06::meta(tier),
         "C09" => qv::c09::meta(tier),
+        "C10" => qv::c10::meta(tier),
         "C12" => qv::c12::meta(tier),
         "C13" => qv::c13::meta(tier),
         "C14" => qv::c14::meta(tier),
+        "C15" => qv::c15::meta(tier),
         "C16" => qv::c16::meta(tier),
         _ => return None,
     })
@@ -23,10 +26,13 @@ fn worker_for(ctx: &WorkerCtx) -> Report {
         "C03" => qv::c01::worker(ctx, "C03"),
         "C04" => qv::c04::worker(ctx),
         "C05" => qv::c05::worker(ctx),
+        "C06" => qv::c06::worker(ctx),
         "C09" => qv::c09::worker(ctx),
+        "C10" => qv::c10::worker(ctx),
         "C12" => qv::c12::worker(ctx),
         "C13" => qv::c13::worker(ctx),
         "C14" => qv::c14::worker(ctx),
+        "C15" => qv::c15::worker(ctx),
         "C16" => qv::c16::worker(ctx),
         other => panic!("unknown check {other}"),
     }
